@@ -47,6 +47,9 @@ func runFuncs(c *core.Ctx) core.Result {
 		panic(err)
 	}
 	checked := 0
+	if c.Replay {
+		fmt.Printf("--- case --- scenario=funcs type=%s\n", cs.Type)
+	}
 	fail := func(monitor, detail, sig string) core.Result {
 		v := &violation{monitor, fmt.Sprintf("mapper=%s func type=%s dir=%s\ncalls: %s\n%s", cs.Mapper, cs.Type, cs.Dir, strings.Join(cs.Calls, " ; "), detail), sig}
 		return violated(v, cs, jsonKey(cs))
